@@ -3789,12 +3789,12 @@ class TLSConnection(TLSRecordLayer):
                         yield result
                 if any(not i.identity for i in psk.identities):
                     for result in self._sendError(
-                            AlertDescription.decoder_error,
+                            AlertDescription.decode_error,
                             "Empty identity in PSK extension"):
                         yield result
                 if any(not i for i in psk.binders):
                     for result in self._sendError(
-                            AlertDescription.decoder_error,
+                            AlertDescription.decode_error,
                             "Empty binder in PSK extension"):
                         yield result
                 if psk is not clientHello.extensions[-1]:
